@@ -524,6 +524,10 @@ DEGRADABLE = ('extraction:', 'front end:', 'undeclared ')
 
 def degradable(u):
     r = u.reason or ''
+    # units whose argument is about interleavings (per-stream total order under concurrent writers): a sequential replay that
+    # passes says nothing about schedules, so a proof that cannot be attempted stays UNDECIDED
+    if unit_header_opts(os.path.join(VERIF, 'units', u.name)).get('nodegrade'):
+        return False
     if not any(k in r for k in DEGRADABLE) or 'resource limit' in r or 'timed out' in r or 'timeout' in r:
         return False
     if getattr(u, 'confirmed', None):
@@ -709,7 +713,7 @@ def report(prop, tier, seed, results, extras, wall, rebaseline, replay):
                         violations.append((u, f, nm))
                     else:
                         msg = '%s: %s fails against the empty contract of new callee(s) %s; no failing input found by replaying the real code' % (u.name, nm, ', '.join(new_callees))
-                        if witness_covers(u.name):
+                        if witness_covers(u.name) and not unit_header_opts(os.path.join(VERIF, 'units', u.name)).get('nodegrade'):
                             degraded.append(msg)
                         else:
                             undecided.append(msg)
